@@ -49,11 +49,39 @@ pub struct UnitResult {
     pub distinct: Vec<u64>,
     /// other hash sets, by name (e.g. "interleavings", "histories")
     pub sets: BTreeMap<String, Vec<u64>>,
+    /// order-sensitive digest of everything observed in this unit (outcomes,
+    /// Fs/logger/syscall histories, schedules): the determinism check runs each
+    /// unit twice and compares
+    pub digest: u64,
 }
 
 impl UnitResult {
     pub fn bump(&mut self, k: &str, n: u64) {
         *self.stats.entry(k.to_string()).or_insert(0) += n;
+    }
+    pub fn fold(&mut self, bytes: &[u8]) {
+        if let Ok(f) = std::env::var("VERIF_DEBUG_FOLD") {
+            use std::io::Write;
+            if let Ok(mut fh) = std::fs::OpenOptions::new().create(true).append(true).open(f) {
+                let _ = writeln!(fh, "{}", String::from_utf8_lossy(bytes).replace('\n', "\\n"));
+            }
+        }
+        self.digest = crate::prng::mix(self.digest, crate::prng::hash_bytes(0, bytes));
+    }
+    pub fn fold_job(&mut self, r: &crate::job::JobResult) {
+        self.fold_job_in(r, "");
+    }
+    /// `root`: a scratch directory whose name differs between executions (pid); it is masked.
+    pub fn fold_job_in(&mut self, r: &crate::job::JobResult, root: &str) {
+        let m = |s: String| if root.is_empty() { s } else { s.replace(root, "$ROOT") };
+        self.fold(m(r.outcome.observable()).as_bytes());
+        for e in &r.fs {
+            self.fold(m(format!("{}|{}|{}|{}|{}", e.k, e.op.name(), e.path, e.result, e.faulted)).as_bytes());
+        }
+        for e in &r.log {
+            self.fold(m(format!("{}|{}|{}|{}|{}", e.kind, e.file, e.line, e.col, e.msg)).as_bytes());
+        }
+        self.fold(format!("{}|{}", r.eval_ticks, r.lexer_ops).as_bytes());
     }
     pub fn set_add(&mut self, set: &str, h: u64) {
         self.sets.entry(set.to_string()).or_default().push(h);
@@ -64,6 +92,7 @@ impl UnitResult {
             "violations": self.violations.iter().map(|v| v.to_json()).collect::<Vec<_>>(),
             "samples": self.samples,
             "distinct": self.distinct.iter().map(|h| format!("{:x}", h)).collect::<Vec<_>>(),
+            "digest": format!("{:x}", self.digest),
             "sets": self.sets.iter().map(|(k, v)| (k.clone(), json!(v.iter().map(|h| format!("{:x}", h)).collect::<Vec<_>>()))).collect::<serde_json::Map<_, _>>(),
         })
     }
@@ -82,6 +111,7 @@ impl UnitResult {
         if let Some(d) = v.get("distinct") {
             r.distinct = hx(d);
         }
+        r.digest = v.get("digest").and_then(|d| d.as_str()).and_then(|d| u64::from_str_radix(d, 16).ok()).unwrap_or(0);
         if let Some(o) = v.get("sets").and_then(|s| s.as_object()) {
             for (k, a) in o {
                 r.sets.insert(k.clone(), hx(a));
